@@ -29,7 +29,7 @@ def strategies_for(opts_rng):
         words.DropDeadStat(),
         words.MergeStats(),
         words.RenameStats(),
-        words.SplitPair(bar_first=rng.random() < 0.5),
+        words.SplitPair(bar_first=rng.random() < 0.5, merge=rng.random() < 0.5),
         words.ExpandTwice(which=rng.choice((0, 1, 2)), drop=drop),
         words.TrackStat(),
     ]
